@@ -39,9 +39,14 @@ def sites(sp):
     ops = sp["ops"]
     liquid = sp["fluid"] == "water"
     temps = {o.get("tfluid_k", 300.0) for o in ops if o["op"] == "junction"}
+    # a pump / compressor inside a mesh switches its lift off for reverse flow: the hydraulic solution is not unique and
+    # Newton's start values follow the declared orientation, so a reversal may legitimately land on the other solution
+    n_j = sum(1 for o in ops if o["op"] == "junction")
+    n_b = sum(1 for o in ops if o["op"] in supply.BRANCH_OPS and "to" in o)
+    lift_in_mesh = any(o["op"] in ("pump", "compressor") for o in ops) and n_b >= n_j
     for o in ops:
         k = o["op"]
-        if k == "pipe" or (k == "valve" and o.get("et", "ju") == "ju") or k == "heat_exchanger":
+        if (k == "pipe" or (k == "valve" and o.get("et", "ju") == "ju") or k == "heat_exchanger") and not lift_in_mesh:
             if not (k == "pipe" and any(v["op"] == "valve" and v.get("et") == "pi" and v["pipe"] == o["id"] for v in ops)):
                 out.append(("R1", o["id"]))
         if k == "pipe" and o.get("sections", 1) > 1 and not any(
@@ -120,7 +125,7 @@ def rewrite(sp, site):
         o = byid[site[1]]
         o["op"] = "source" if o["op"] == "sink" else "sink"
         o["mdot"] = -o.get("mdot", 0.1)
-        o["index"] = 9300
+        o["index"] = 9300 + ops.index(o)
         plan["skip"].add(o["id"])
         plan["negload"] = o["id"]
     elif r == "R6":
@@ -211,6 +216,8 @@ def compare(r0, r1, plan, gas, hydraulic_only=False):
                 continue
             if col in o and col in src:
                 va, vb = o[col], src[col]
+                if col.startswith("p_") and plan["shift"]:
+                    vb = vb - plan["shift"]
                 if np.isnan(va) and np.isnan(vb):
                     continue
                 if not abs(va - vb) <= 1e-9 * max(1.0, abs(va), abs(vb)):
@@ -328,7 +335,7 @@ def run_case(case):
             cols = sorted(set(x[1] for x in diffs))
             vs.append(viol("results_differ", "%s at %s: %d cells differ, e.g. %s.%s original %r rewritten %r; cols %s; dev %s" % (
                 rw, case["sites"], len(diffs), d[0], d[1], d[2], d[3], cols[:6], case["base"].get("dev") or case["base"].get("topo")),
-                rewrite=rw, col=cols[0], gas=gas, scope=case["base"]["scope"],
+                rewrite=rw, col=cols[0], gas=gas, scope=case["base"]["scope"], reversal="R1" in rw.split("+"),
                 start_mismatch=case["base"].get("point", {}).get("start") == "mismatch"))
     return {"status": "ok" if st1 == "ok" and st0 == "ok" else "skipped_not_returned", "violations": vs,
             "nontrivial": st0 == "ok" and st1 == "ok", "sig": core.jhash([case["base"], case["sites"]]), "info": {"rw_" + rw: 1}}
